@@ -271,6 +271,18 @@ pub fn run(a: &Args, rep: &mut Report) {
             check(rep, &p, "length-limit", &mut rng);
             p.push(0);
             check(rep, &p, "length-limit+1byte", &mut rng);
+            // the limit counts 8-byte slots: the same lengths with wide loads inside
+            let mut p = Vec::with_capacity(n * 8 + 8);
+            let lddws = 1 + rng.below(40) as usize;
+            for _ in 0..lddws {
+                p.extend_from_slice(&Insn::new(LDDW, 1, 0, 0, 7).bytes());
+                p.extend_from_slice(&[0u8; 8]);
+            }
+            for _ in 0..n - 1 - 2 * lddws {
+                p.extend_from_slice(&nop);
+            }
+            p.extend_from_slice(&exit);
+            check(rep, &p, "length-limit-with-lddw", &mut rng);
         }
     }
     // jump / call displacement sweep around program bounds and lddw halves
